@@ -17,7 +17,7 @@ pub fn history_rules(_prog: &Program, trace: &[Ev]) -> Vec<Verdict>
     {
         match ev
         {
-            Ev::Panic(m) => push(&mut out, "C18", "h-panic", &["C02", "C03", "C11", "C12"], pos, format!("panic: {m}")),
+            Ev::Panic(m) => push(&mut out, "C18", "h-panic", &["C02", "C03", "C07", "C10", "C11", "C12"], pos, format!("panic: {m}")),
             Ev::Probe { uid, s } if !s.is_empty() => push(&mut out, "C04", "h-probe-saw-data", &[], pos, format!("probe {uid:#x} observed {s:?}")),
             Ev::Body { inst, n, cap, s } =>
             {
